@@ -332,7 +332,8 @@ pub fn run(env: &mut Env) -> RunResult {
     for (sub, fam) in [(SUB_S3, model::Fam::V3), (SUB_S5, model::Fam::V5)] {
         let cs: Vec<Input> = crate::sized::cases(fam, env.thorough())
             .into_iter()
-            .filter(|c| c[2] <= lim && c[2] >= 16_000 && !(c[0] == crate::sized::K_PROPS && c[2] >= 2_000_000 && !matches!(c[1], 1 | 2 | 13)))
+            .filter(|c| c[2] <= lim && (c[2] >= 16_000 || c[0] >= crate::sized::K_MANY) && !(c[0] == crate::sized::K_PROPS && c[2] >= 2_000_000 && !matches!(c[1], 1 | 2 | 13)))
+            .filter(|c| c[0] < crate::sized::K_MANY || c[2] <= 1_000)
             .filter(|c| env.thorough() || c[2] < 100_000 || c[2] % 2 == 0)
             .map(|c| Input::Nums(c.to_vec()))
             .collect();
